@@ -427,7 +427,66 @@ def checkScene (c : Case) : CaseResult := Id.run do
                        ("prune.tie.coincident-pairs", tie.pairs), ("prune.tie.points-pruned", tie.pruned),
                        ("prune.tie.model-assert-fails", tie.assertFail)] }
 
+/-! ### prune-rule cases: the constructor's pruning of constructed paths vs. Model/TopoPrune -/
+
+open AdaptaVerif.Model.TopoPrune in
+def checkPruneRule (c : Case) : CaseResult := Id.run do
+  let mut lines := 0
+  let mut pairs := 0
+  let mut prunedIn := 0
+  let mut prunedOut := 0
+  let mut prunedCol := 0
+  let mut guarded := 0
+  let mut last : Array String := #[]
+  -- the `q` line (input) waiting for its `kept` line (what the constructor left)
+  let mut pending : Option (Nat × Array BPt) := none
+  for l0 in c.lines do
+    if l0.size == 0 then continue
+    let l := l0.extract 1 l0.size
+    if l0[0]! == "q" then
+      last := l0
+      if l.size < 2 then return { verdict := .diverge s!"short q line {l}" }
+      let dim := nat! l[0]!
+      let k := nat! l[1]!
+      if l.size < 2 + 4 * k then return { verdict := .diverge s!"short q line {l}" }
+      match nums? (l.extract 2 (2 + 4 * k)) with
+      | none => return { verdict := .diverge s!"unparsable q line {l}" }
+      | some v =>
+        pending := some (dim, (Array.range k).map fun i => ⟨v[4*i]!, v[4*i+1]!, v[4*i+2]!, v[4*i+3]!⟩)
+    else if l0[0]! == "kept" then
+      match pending with
+      | none => return { verdict := .diverge s!"kept line without q line {l}" }
+      | some (dim, bp) =>
+        pending := none
+        let k := bp.size
+        let m := nat! (l[0]?.getD "0")
+        let got := ((l.extract 1 (1 + m)).toList.map nat!)
+        lines := lines + 1
+        if pruneDelicate bp then
+          guarded := guarded + 1
+          continue
+        let bl := bp.toList
+        pairs := pairs + ((AdaptaVerif.Check.Topo.legs bl).filter fun ab => samePos ab.1 ab.2).length
+        for i in [1:k-1] do
+          let o := bp[i-1]!; let pt := bp[i]!; let q := bp[i+1]!
+          let n? := if i < 2 then none else bp[i-2]?
+          if collinearRule dim o pt q then prunedCol := prunedCol + 1
+          if inRule n? o pt q then prunedIn := prunedIn + 1
+          else if outRule o pt q bp[i+2]? then prunedOut := prunedOut + 1
+        let want := keptIdx dim bl
+        if want != got then
+          let pts := " ".intercalate (bl.map fun a => s!"({showQ a.x},{showQ a.y};c {showQ a.cx},{showQ a.cy})")
+          return { verdict := .diverge s!"prune tie: TopologyConstraints constructor (axis {dim}) on the path [{pts}] keeps the points {got}, Model/TopoPrune.prune keeps {want} (model asserts ok: {allAssertsOk bl})" }
+  match c.get1 "ABORT" with
+  | some l =>
+    return { verdict := .specfail s!"class=crash-prune-rule CRASH inside the TopologyConstraints constructor on a constructed path (last line {last}): {" ".intercalate l.toList}" }
+  | none => pure ()
+  return { verdict := .ok, nontrivial := prunedIn + prunedOut + prunedCol > 0,
+           stats := [("rule.paths", lines), ("rule.coincident-pairs", pairs), ("rule.pruned.second-of-pair", prunedIn),
+                     ("rule.pruned.first-of-pair", prunedOut), ("rule.pruned.collinear", prunedCol), ("rule.guarded", guarded)] }
+
 def run (_args : List String) : IO UInt32 :=
-  runCases (fun c => if c.tag.startsWith "tri" then checkTri c else checkScene c)
+  runCases (fun c => if c.tag.startsWith "tri" then checkTri c
+                     else if c.tag == "prune-rule" then checkPruneRule c else checkScene c)
 
 end Driver.C13
